@@ -30,8 +30,8 @@ func c11cliRunParts(c *vx.Ctx) {
 		parts = []c10cliPart{
 			{"cli/win8/empty", small, nil, aSmall, 7},
 			{"cli/win8/one-response", small, seedStream, aSmall, 6},
-			{"cli/conn131070/prefilled", connB, seedConn, aConn, 6},
-			{"cli/conn131070/prefilled-two-streams", connB, seedConn2, aConn, 5},
+			{"cli/conn131070/prefilled", connB, seedConn, aConn, 5},
+			{"cli/conn131070/prefilled-two-streams", connB, seedConn2, aConn, 4},
 		}
 	}
 	c10cliRunPartList(c, c10sMode{id: "C11", enforce: true}, parts)
